@@ -15,12 +15,16 @@ use serde_json::{json, Value};
 use std::sync::{Arc, Barrier};
 
 const RULE: &str = "histories of 1..60 public calls (lookup, centre, boundary, children, parent, compact, uncompact, res0, area/count, \
-hex, projection forward/inverse on the thread-local instance) with arguments biased to hit every face, all 10 triangles \
-and both reflect states. Oracle: each result, bit for bit (f64::to_bits, exact vectors, identical Err strings), equals the \
-result of the same call made as the first call of a fresh thread; checked in generation order, reversed and in a \
-generated permutation, each in its own long-lived thread. An op is non-trivial if a memo slot it needs (known from its \
-cold run, read through the hook) was already filled by an earlier call of the history; distinct by (op, order). Stress: \
-T in {2,4,16} barrier-released threads and fresh-process first-call races against the same references.";
+hex, projection forward/inverse on the thread-local instance, raw calls with malformed arguments incl. stride runs, \
+requests that must be refused) with arguments biased to hit every face, all 10 triangles and both reflect states; \
+related-argument histories (same cell on another face/quintant, siblings, parent/child, most-significant-digit \
+variants, hair-moved points, small-step walks across a face edge). Oracle: each result, bit for bit (f64::to_bits, \
+exact vectors, identical Err strings), equals the result of the same call made as the first call of a fresh thread \
+(three execution orders) and, in a single-worker section, as the only call of a fresh process. An op is non-trivial \
+if a memo slot it needs (read through the hook) was already filled by an earlier call; distinct by (op, order). \
+Further sections: degenerate lookups (exact cell corners / edge midpoints) compared across two fresh threads; calls \
+made from a thread-local destructor while the thread shuts down; stress: T in {2,4,16} barrier-released threads, \
+an 8-thread hammer on cheap calls, fresh-process first-call races (unoptimised build, spin barrier).";
 
 #[derive(Debug, Clone)]
 pub enum Op {
@@ -740,7 +744,64 @@ fn check_race(seed: u64, st: &mut Stats) -> Result<(), String> {
     Ok(())
 }
 
+/// The thorough tier runs as a series of quick-sized batches, each in its own child process: every
+/// thread that touches the library keeps about 23 KB allocated for the life of the process (the
+/// per-thread projection instance is leaked by design), and the cold references spawn a thread
+/// per call, so one long process would need tens of gigabytes.
+const THOROUGH_BATCHES: u64 = 32;
+
 pub fn run(tier: Tier, seed: u64) -> Report {
+    if tier == Tier::Quick || std::env::var("A5VERIF_C13_BATCH").is_ok() {
+        return run_batch(tier, seed);
+    }
+    let mut rep = Report::new("C13", tier, seed, RULE);
+    rep.assume("the interleaving dimension is stress exploration under the OS scheduler (barrier-released threads, hammer, fresh-process first-call races), not schedule enumeration");
+    let exe = match std::env::current_exe() {
+        Ok(e) => e,
+        Err(e) => {
+            eprintln!("harness: {}", e);
+            std::process::exit(2);
+        }
+    };
+    for b in 0..THOROUGH_BATCHES {
+        let bseed = mix_seed(seed, "c13-batch", b as usize);
+        let out = std::process::Command::new(&exe)
+            .args(["child", "c13-batch", &bseed.to_string()])
+            .env("A5VERIF_C13_BATCH", "1")
+            .output();
+        let out = match out {
+            Ok(o) if o.status.success() => o,
+            other => {
+                eprintln!("harness: C13 batch {} failed to run: {:?}", b, other.map(|o| o.status));
+                std::process::exit(2);
+            }
+        };
+        let v: Value = match serde_json::from_slice(&out.stdout) {
+            Ok(v) => v,
+            Err(e) => {
+                eprintln!("harness: C13 batch {} produced unreadable output: {}", b, e);
+                std::process::exit(2);
+            }
+        };
+        absorb_child_report(&mut rep, &v, bseed);
+        if rep.violation.is_some() {
+            break;
+        }
+    }
+    rep.extra.insert("thorough_batches_in_child_processes".into(), json!(THOROUGH_BATCHES));
+    rep
+}
+
+/// `child c13-batch <seed>`: one quick-sized batch, report as JSON on stdout.
+pub fn child_batch(args: &[String]) -> i32 {
+    let seed: u64 = args[0].parse().unwrap_or(0);
+    let rep = run_batch(Tier::Quick, seed);
+    println!("{}", report_to_json(&rep));
+    0
+}
+
+fn run_batch(tier: Tier, seed: u64) -> Report {
+    let tier = if std::env::var("A5VERIF_C13_BATCH").is_ok() { Tier::Quick } else { tier };
     let mut rep = Report::new("C13", tier, seed, RULE);
     rep.assume("the interleaving dimension is stress exploration under the OS scheduler (barrier-released threads, fresh-process first-call races), not schedule enumeration");
     let only = std::env::var("A5VERIF_C13_ONLY").unwrap_or_default();
